@@ -608,7 +608,7 @@ def search_violations(ctx, state):
             bad = oracle_voltage(S, v, o)
             if bad:
                 # prefer ADC codes, then round voltages (1 V, 2.5 V ...), then the nearest to 1 V
-                per.append((order[bad[0]], not _is_code(v), v * 8 != int(v * 8) if finite(v) else True,
+                per.append((order[bad[0]], not _is_code(v), not _is_round(v),
                             abs(v - 1.0), v_violation(S, v, o, *bad)))
             if o[0] == "ok" and finite(o[1]):
                 pairs.append((v, o[1]))
@@ -633,6 +633,10 @@ def search_violations(ctx, state):
             found.append((perd[0][0], perd[0][3]))
     found.sort(key=lambda t: t[0])
     return [f for _, f in found]
+
+
+def _is_round(v):
+    return finite(v) and abs(v) < 1e6 and (v * 8) % 1 == 0
 
 
 def _is_code(v):
